@@ -3,6 +3,7 @@ From Coq Require Import Permutation Sorted.
 From HTA.lib Require Import Base.
 From HTA.model Require Import C06_Model.
 From HTA.proof Require Import C06_Proofs.
+From HTA.proof Require Import Scale C06_Scale.
 Open Scope Z_scope.
 
 Theorem C06_gaps_are_consecutive : forall l d prev ks, map snd (walk l d prev ks) = consecutive_gaps prev ks.
@@ -62,3 +63,9 @@ Definition ex06 : list ev :=
     mkEv 7 24 2 0 7 7 9 0 (-1) "orphan" "gpu_memcpy" ].
 Example C06_nonvacuous : encode_C06 ex06 5 [7; 8] = [[6; 1; 10]; [0; 0; 0]].
 Proof. vm_compute. reflexivity. Qed.
+
+(* resolution independence: times and threshold multiplied by k > 0 give k times every category's idle time (same classification) *)
+Theorem C06_resolution_independent : forall k l d s, 0 < k ->
+  model_C06 (scale_evs k l) (k * d) s = map (Z.mul k) (model_C06 l d s).
+Proof. exact C06_scale. Qed.
+Print Assumptions C06_resolution_independent.
